@@ -15,7 +15,7 @@ import time
 
 ROOT = os.path.dirname(os.path.dirname(os.path.abspath(__file__)))
 PY = sys.executable
-KNOWN_FILE = os.path.join(ROOT, "known_findings.json")
+KNOWN_FILE = os.environ.get("VERIF_KNOWN_FILE") or os.path.join(ROOT, "known_findings.json")   # the override is a debugging aid (list what an entry suppresses)
 
 TIER_OPTS = {
     "quick": dict(query_timeout_ms=20000, path_cap=30000, max_witness=400, wall_cap_s=240),
